@@ -6,8 +6,10 @@ import (
 	"net"
 	"net/netip"
 	"reflect"
+	"sort"
 	"strings"
 	"time"
+	"unsafe"
 
 	"github.com/uhppoted/uhppote-core/types"
 	"github.com/uhppoted/uhppote-core/uhppote"
@@ -354,9 +356,9 @@ func genOp(r *Rand, which int, id uint32, edge bool) OpCase {
 		card := types.Card{CardNumber: no, From: from.date(), To: to.date(), Doors: doors, PIN: types.PIN(pin)}
 		coq := fmt.Sprintf("PutCard %d {| c_number := %d; c_from := %s; c_to := %s; c_doors := %s; c_pin := %d |} %s", id, no, date3(from.y, from.m, from.d), date3(to.y, to.m, to.d), coqList(doorsCoq), pin, coqList(fcoq))
 		return simple("PutCard", 0x50, coq, "PutCardResponse", func(u uhppote.IUHPPOTE) string {
-			before := fmt.Sprintf("%v", card)
+			before := deepSnap(card) + deepSnap(formats)
 			res := okBool(u.PutCard(id, card, formats...))
-			if after := fmt.Sprintf("%v", card); after != before {
+			if after := deepSnap(card) + deepSnap(formats); after != before {
 				return "RPanic" // argument modified (C17): never produced by the model
 			}
 			return res
@@ -413,9 +415,9 @@ func genOp(r *Rand, which int, id uint32, edge bool) OpCase {
 		prof := types.TimeProfile{ID: pid, LinkedProfileID: linked, From: from.date(), To: to.date(), Weekdays: w, Segments: segs}
 		coq := fmt.Sprintf("SetTimeProfile %d {| p_id := %d; p_linked := %d; p_from := %s; p_to := %s; p_weekdays := %s; p_segments := %s |}", id, pid, linked, date3(from.y, from.m, from.d), date3(to.y, to.m, to.d), wc, coqList(sc))
 		return simple("SetTimeProfile", 0x88, coq, "SetTimeProfileResponse", func(u uhppote.IUHPPOTE) string {
-			before := fmt.Sprintf("%v|%v", prof, len(prof.Weekdays))
+			before := deepSnap(prof)
 			res := okBool(u.SetTimeProfile(id, prof))
-			if after := fmt.Sprintf("%v|%v", prof, len(prof.Weekdays)); after != before {
+			if after := deepSnap(prof); after != before {
 				return "RPanic"
 			}
 			return res
@@ -436,9 +438,9 @@ func genOp(r *Rand, which int, id uint32, edge bool) OpCase {
 		task := types.Task{Task: types.TaskType(tt), Door: door, From: from.date(), To: to.date(), Weekdays: w, Start: types.NewHHmm(h, m), Cards: cards}
 		coq := fmt.Sprintf("AddTask %d {| t_task := %s; t_door := %d; t_from := %s; t_to := %s; t_weekdays := %s; t_start := %s; t_cards := %d |}", id, zc(tt), door, date3(from.y, from.m, from.d), date3(to.y, to.m, to.d), wc, hm2(h, m), cards)
 		return simple("AddTask", 0xa8, coq, "AddTaskResponse", func(u uhppote.IUHPPOTE) string {
-			before := fmt.Sprintf("%v|%v|%v", task, len(task.Weekdays), task.Weekdays)
+			before := deepSnap(task)
 			res := okBool(u.AddTask(id, task))
-			if after := fmt.Sprintf("%v|%v|%v", task, len(task.Weekdays), task.Weekdays); after != before {
+			if after := deepSnap(task); after != before {
 				return "RPanic" // argument modified (C17)
 			}
 			return res
@@ -529,9 +531,9 @@ func genOp(r *Rand, which int, id uint32, edge bool) OpCase {
 			}
 		}
 		return simple("ActivateKeypads", 0xa4, fmt.Sprintf("ActivateKeypads %d %s", id, boolMapCoq(readers, []uint8{1, 2, 3, 4, 0, 5})), "ActivateAccessKeypadsResponse", func(u uhppote.IUHPPOTE) string {
-			before := fmt.Sprintf("%v|%v", readers, readers == nil)
+			before := deepSnap(readers)
 			res := okBool(u.ActivateKeypads(id, readers))
-			if after := fmt.Sprintf("%v|%v", readers, readers == nil); after != before {
+			if after := deepSnap(readers); after != before {
 				return "RPanic"
 			}
 			return res
@@ -577,4 +579,80 @@ func getDevicesCase() OpCase {
 			}
 			return "(RList " + coqList(out) + ")"
 		}}
+}
+
+// deepSnap renders a value structurally (no String methods): struct fields, map entries in key order with nil-ness and
+// length, slices with nil-ness, time.Time by its instant - for before/after comparisons of arguments (C17)
+func deepSnap(x any) string {
+	var b strings.Builder
+	var walk func(v reflect.Value)
+	walk = func(v reflect.Value) {
+		if v.IsValid() && v.Type() == reflect.TypeOf(time.Time{}) {
+			t := v.Interface().(time.Time)
+			fmt.Fprintf(&b, "T%d.%d@%s", t.Unix(), t.Nanosecond(), t.Location())
+			return
+		}
+		switch v.Kind() {
+		case reflect.Struct:
+			if v.Type().ConvertibleTo(reflect.TypeOf(time.Time{})) {
+				walk(v.Convert(reflect.TypeOf(time.Time{})))
+				return
+			}
+			b.WriteString("{")
+			for i := 0; i < v.NumField(); i++ {
+				f := v.Field(i)
+				if !f.CanInterface() { // unexported: read through an addressable copy
+					c := reflect.New(v.Type()).Elem()
+					c.Set(v)
+					f = reflect.NewAt(f.Type(), unsafe.Pointer(c.Field(i).UnsafeAddr())).Elem()
+				}
+				walk(f)
+				b.WriteString(";")
+			}
+			b.WriteString("}")
+		case reflect.Map:
+			fmt.Fprintf(&b, "map(nil=%v,len=%d)[", v.IsNil(), v.Len())
+			keys := v.MapKeys()
+			sort.Slice(keys, func(i, j int) bool { return fmt.Sprint(keys[i].Interface()) < fmt.Sprint(keys[j].Interface()) })
+			for _, k := range keys {
+				fmt.Fprintf(&b, "%v:", k.Interface())
+				walk(v.MapIndex(k))
+				b.WriteString(",")
+			}
+			b.WriteString("]")
+		case reflect.Slice:
+			fmt.Fprintf(&b, "slice(nil=%v)[", v.IsNil())
+			for i := 0; i < v.Len(); i++ {
+				walk(v.Index(i))
+				b.WriteString(",")
+			}
+			b.WriteString("]")
+		case reflect.Array:
+			b.WriteString("[")
+			for i := 0; i < v.Len(); i++ {
+				walk(v.Index(i))
+				b.WriteString(",")
+			}
+			b.WriteString("]")
+		case reflect.Pointer, reflect.Interface:
+			if v.IsNil() {
+				b.WriteString("nil")
+			} else {
+				b.WriteString("&")
+				walk(v.Elem())
+			}
+		case reflect.Bool:
+			fmt.Fprintf(&b, "%v", v.Bool())
+		case reflect.Int, reflect.Int8, reflect.Int16, reflect.Int32, reflect.Int64:
+			fmt.Fprintf(&b, "%d", v.Int())
+		case reflect.Uint, reflect.Uint8, reflect.Uint16, reflect.Uint32, reflect.Uint64:
+			fmt.Fprintf(&b, "%d", v.Uint())
+		case reflect.String:
+			fmt.Fprintf(&b, "%q", v.String())
+		default:
+			fmt.Fprintf(&b, "?%v", v.Kind())
+		}
+	}
+	walk(reflect.ValueOf(x))
+	return b.String()
 }
